@@ -18,7 +18,9 @@ OS_EVENTS = ("kill", "waitpid", "close", "read", "write", "poll", "fork", "alloc
 
 
 def run(ctx, prog, f, config_tag=None):
-    return A.run_api(ctx, prog, f, combos="min" if f in MIN_COMBOS else "all", tag=config_tag)
+    # quick tier: stop/destroy from the handle states with all / none of the stream pipes open; thorough: all 8 combinations
+    combos = "min" if (f in MIN_COMBOS and ctx.tier != "thorough") else "all"
+    return A.run_api(ctx, prog, f, combos=combos, tag=config_tag)
 
 
 _poll_cache = {}
